@@ -24,6 +24,18 @@ def ufun(name, *sorts):
 def str_method(E, m, args, kwargs):
     me = args[0]
     rest = args[1:]
+    from . import bytesmodel as _BM
+    if _conc(me) and isinstance(me.v, bytes) and not all(_conc(a) for a in rest):
+        # a bytes constant as receiver with symbolic operands (b''.join(list), table.find(x), ...)
+        if m != 'join' or (isinstance(rest[0], VRef) and isinstance(E.heap[rest[0].addr], HList) and (
+                E.heap[rest[0].addr].base is not None and E.ghost.get(('bytes_list', E.heap[rest[0].addr].base.name))
+                or any(isinstance(x, VBy) for x in E.heap[rest[0].addr].items))):
+            return _BM.method(E, m, args, kwargs)
+    if m == 'join' and _conc(me) and isinstance(me.v, bytes) and isinstance(rest[0], VRef) and isinstance(E.heap[rest[0].addr], HList) \
+            and E.heap[rest[0].addr].base is None and all(_conc(x) and isinstance(x.v, bytes) for x in E.heap[rest[0].addr].items):
+        return VC(me.v.join(x.v for x in E.heap[rest[0].addr].items))
+    if m == 'encode' and not _conc(me):
+        return _BM.str_encode(E, me, rest, kwargs)
     if m == 'join' and _conc(me) and isinstance(me.v, bytes):
         # bytes join: an uninterpreted concatenation of bytes values (TypeError for a str piece)
         items = E.concrete_iter(rest[0])
